@@ -225,6 +225,17 @@ Calendar ==
         Finish((IF y[1] THEN <<ChMinus>> ELSE IF Len(y[2]) > 4 THEN <<ChPlus>> ELSE <<>>) \o DigitCodes(y[2]) \o <<ChMinus>> \o D2(m) \o <<ChMinus>> \o D2(d)
                \o <<ChT>> \o D2(h) \o <<ChColon>> \o D2(IF h = 0 THEN 0 ELSE 59) \o <<ChColon>> \o D2(IF h = 0 THEN 0 ELSE 59) \o <<ChZ>>, "dt", "cal")
 
+\* --- February / March boundary of every year class: Feb 28, 29, 30 and Mar 1 for every century year of -2000..2400
+\* (all residues of year mod 400 - and mod 800, 1600 - for positive, negative and year-0 cases), the years around
+\* century and 400-year boundaries, plain leap and common years, and five-digit years.  A leap-year rule that is wrong
+\* for a single residue class (e.g. only for years = 200 mod 400) must show up here.
+FebYears == {100 * k : k \in -20..24} \cup (1895..1905) \cup (1995..2005) \cup (2095..2105) \cup (-5..5) \cup (95..105) \cup (195..205)
+            \cup (395..405) \cup (-105..-95) \cup (-205..-195) \cup (-405..-395) \cup {10000, 10100, 10200, 10300, 10400, 10004, 10001, -10000, -9900, -9800}
+CalendarFeb ==
+  /\ kind = "cal" /\ stage = 1
+  /\ \E y \in FebYears, md \in {<<2, 28>>, <<2, 29>>, <<2, 30>>, <<3, 1>>} :
+        Finish(YearCodes(FromInt(y)) \o <<ChMinus>> \o D2(md[1]) \o <<ChMinus>> \o D2(md[2]) \o <<ChT, 48, 48, ChColon, 48, 48, ChColon, 48, 48, ChZ>>, "dt", "cal-feb")
+
 \* --- limit neighbourhoods: instants around min / max of every (unit, representation), on the nanosecond grid
 HalfTick(u) == DivModSmall(MulChain(One, NsChain(u)), 2).q
 LimitDeltas(u) == {Zero, One, FromInt(-1), HalfTick(u), Neg(HalfTick(u)), AddSmall(HalfTick(u), 1), AddSmall(HalfTick(u), -1),
@@ -279,12 +290,22 @@ Mutate ==
         \/ \E p \in 1..(n + 1), c \in MutAlphabet : Finish(SubSeq(base, 1, p - 1) \o <<c>> \o SubSeq(base, p, n), o, "mut-insert")   \* insert
         \/ \E p \in 1..n : \E c \in MutAlphabet \ {base[p]} : Finish(SubSeq(base, 1, p - 1) \o <<c>> \o SubSeq(base, p + 1, n), o, "mut-replace") \* replace
 
+\* --- aliasing mutation for the wide string types: one character c of a valid text is replaced by a code point whose low
+\* byte is c (c + 256, c + 512, and the supplementary-plane c + 0x1F400).  A parser that narrows char16_t / char32_t /
+\* wchar_t input by truncation instead of transcoding would read the original valid text; the expected outcome is
+\* InvalidArgument for every target and every string width.
+MutateAlias ==
+  /\ kind = "mut" /\ stage = 1
+  /\ \E b \in 1..MutBases :
+        LET base == MutBaseList[b][2] o == MutBaseList[b][1] n == Len(base) IN
+        \E p \in 1..n, k \in {256, 512, 128000} : Finish(SubSeq(base, 1, p - 1) \o <<base[p] + k>> \o SubSeq(base, p + 1, n), o, "mut-alias")
+
 Next ==
   \/ DtYearP \/ DtSepYM \/ DtMonthP \/ DtSepMD \/ DtDayP \/ DtSepDT \/ DtHourP \/ DtSepHM \/ DtMinP \/ DtSepMS \/ DtSecP \/ DtFracP \/ DtEndP
   \/ DuSignP \/ DuPP \/ DuWeeksP \/ DuDaysP \/ DuTP \/ DuHoursP \/ DuMinutesP \/ DuSecondsP \/ DuEndP
-  \/ Calendar \/ LimitDt \/ LimitDu
+  \/ Calendar \/ CalendarFeb \/ LimitDt \/ LimitDu
   \/ FracDigit \/ FracEndDt \/ FracEndDu \/ FracSeededDt \/ FracSeededDu \/ FracBoundaryDt \/ FracBoundaryDu
-  \/ Mutate
+  \/ Mutate \/ MutateAlias
 
 Spec == Init /\ [][Next]_vars
 
